@@ -9,6 +9,7 @@ import (
 	"regexp"
 	"sort"
 	"strings"
+	"verif/checker/internal/shape"
 
 	"verif/checker/internal/load"
 )
@@ -431,4 +432,59 @@ func (c *Ctx) defaultsUsed(rule string, prefixes ...string) {
 		}
 	}
 	run.Count("default_constants", n)
+}
+
+// documentedAverages: where a type holds its moving average behind the trend.Ma interface, the
+// constructors that do not take the average as an argument choose it, and the documentation says
+// which one ("By default, SMA is used as the MA"; TSI = EMA(13, EMA(25, PC)) / …; Envelope "using
+// SMA" / "using EMA"). The formula check treats an Ma field as any average; this table (frozen
+// from the doc comments, one line each) pins the choice. The objects are built by the shape
+// interpreter from the constructors' source; SMMA for SMA type-checks, has the same warm-up and
+// the same first value.
+var documentedAverages = []struct{ rel, ctor, field, want, why string }{
+	{"volatility", "NewAtr", "Ma", "trend.Sma", "Atr: \"By default, SMA is used as the MA\""},
+	{"volatility", "NewAtrWithPeriod", "Ma", "trend.Sma", "Atr: \"By default, SMA is used as the MA\""},
+	{"trend", "NewTsi", "FirstSmoothing", "trend.Ema", "TSI = (EMA(13, EMA(25, PC)) / EMA(13, EMA(25, |PC|))) * 100"},
+	{"trend", "NewTsi", "SecondSmoothing", "trend.Ema", "TSI = (EMA(13, EMA(25, PC)) / EMA(13, EMA(25, |PC|))) * 100"},
+	{"trend", "NewTsiWith", "FirstSmoothing", "trend.Ema", "TSI = (EMA(13, EMA(25, PC)) / EMA(13, EMA(25, |PC|))) * 100"},
+	{"trend", "NewTsiWith", "SecondSmoothing", "trend.Ema", "TSI = (EMA(13, EMA(25, PC)) / EMA(13, EMA(25, |PC|))) * 100"},
+	{"trend", "NewEnvelopeWithSma", "Ma", "trend.Sma", "\"initalizes a new Envelope instance using SMA\""},
+	{"trend", "NewEnvelopeWithEma", "Ma", "trend.Ema", "\"initializes a new Envelope instance using EMA\""},
+}
+
+func (c *Ctx) documentedAveragesRule(rule string) {
+	run := c.Run
+	run.Explanation += " Where a type keeps its moving average behind the trend.Ma interface, the constructors that choose it choose the documented one (table of 8, objects built by the shape interpreter)."
+	n := 0
+	for _, e := range documentedAverages {
+		fi := c.fn(e.rel, "", e.ctor)
+		if fi == nil {
+			continue
+		}
+		n++
+		it := shape.NewInterp(c.P, shape.ModeContracts)
+		got, decided := "", false
+		for _, r := range it.AnalyzeRoot(fi) {
+			obj, ok := r.Ret.(*shape.Object)
+			if !ok || obj == nil {
+				continue
+			}
+			if cell := obj.Fields[e.field]; cell != nil {
+				if inner, isObj := cell.V.(*shape.Object); isObj && inner != nil {
+					got, decided = inner.TypeName(), true
+				}
+			}
+		}
+		good := decided && got == e.want
+		run.Oblige(good)
+		if !good {
+			what := "holds a " + got
+			if !decided {
+				what = "could not be determined (undecided, fails closed)"
+			}
+			c.violate(rule, e.rel+"."+e.ctor, "average "+e.field, fi.Decl.Pos(), fmt.Sprintf("the %s of the object %s builds %s; documented: %s (%s)", e.field, e.ctor, what, e.want, e.why))
+		}
+	}
+	run.Count("documented_averages", n)
+	run.Floor("documented_averages", 8)
 }
